@@ -100,6 +100,12 @@ impl<'a> World<'a> {
         match init.lib {
             "stale" => { std::fs::copy(env.prebuilt.join("v1.so"), &out).unwrap(); std::fs::File::options().write(true).open(&out).unwrap().set_modified(t_src - std::time::Duration::from_secs(1000)).unwrap(); }
             "fresh" => { std::fs::copy(env.prebuilt.join("v2.so"), &out).unwrap(); }
+            // stale only through the external scanner: the library (old version) is newer than parser.c but older than scanner.c
+            "stale-scanner" => {
+                std::fs::copy(env.prebuilt.join("v1.so"), &out).unwrap();
+                std::fs::File::options().write(true).open(&out).unwrap().set_modified(t_src + std::time::Duration::from_secs(100)).unwrap();
+                std::fs::write(dir.join("src/scanner.c"), "// verif scanner placeholder\nint tree_sitter_probe_external_scanner_unused;\n").unwrap();
+            }
             _ => {}
         }
         if init.temp { let b = std::fs::read(env.prebuilt.join("v1.so")).unwrap(); std::fs::write(dir.join("lib/.probe.so.99999.ThreadId(1)"), &b[..b.len() / 3]).unwrap(); }
@@ -319,6 +325,7 @@ pub fn worker(ctx: &Ctx, res: &mut ShardResult) {
         Init { lib: "none", lock: false, temp: true }, Init { lib: "stale", lock: false, temp: true },
         Init { lib: "none", lock: true, temp: false }, Init { lib: "stale", lock: true, temp: false },
         Init { lib: "fresh", lock: false, temp: false }, Init { lib: "fresh", lock: true, temp: true },
+        Init { lib: "stale-scanner", lock: false, temp: false },
     ];
     // shard over (initial state, first action)
     let mut idx = 0usize;
@@ -358,7 +365,7 @@ pub fn probe_main(src: &str, lib: &str) {
 
 fn parse_init(s: &str) -> Option<Init> {
     // "Init { lib: \"stale\", lock: true, temp: false }"
-    let lib = if s.contains("\"stale\"") { "stale" } else if s.contains("\"fresh\"") { "fresh" } else if s.contains("\"none\"") { "none" } else { return None };
+    let lib = if s.contains("\"stale-scanner\"") { "stale-scanner" } else if s.contains("\"stale\"") { "stale" } else if s.contains("\"fresh\"") { "fresh" } else if s.contains("\"none\"") { "none" } else { return None };
     Some(Init { lib, lock: s.contains("lock: true"), temp: s.contains("temp: true") })
 }
 
